@@ -403,6 +403,9 @@ class SimulatorBackend(LocalBackend):
         self._debug_message(
             "StartEvent", time=time_start, trial_id=trial_id, pushed=True
         )
+        # The worker is occupied from now on, not only once the start event
+        # is processed (after ``delay_start``)
+        self._busy_trial_ids.add(trial_id)
         logger.debug(f"Simulated time since start: {_time_start:.2f} secs")
         self._time_keeper.mark_exit()
 
